@@ -8,7 +8,7 @@ from .. import estimators as E, gen
 
 RULE = ('17 estimators x preprocessor kind {ndarray, nested list, counting callable} x pool = training points '
         'interleaved with decoy rows in a drawn order x index arrays (arbitrary order, repeats for queries, dtype '
-        'in int8..int64/uint8..uint32/Python ints) x every data-taking method (fit, transform, pair_distance, '
+        'in int8..int64/uint8..uint64/Python ints; sorted / reversed; C, Fortran, transposed-view and strided memory layouts) x every data-taking method (fit, transform, pair_distance, '
         'pair_score, predict, decision_function, score, calibrate_threshold). Differential oracle: estimator fed '
         'indices+preprocessor vs an identical estimator fed the formed arrays: components_, threshold_, '
         'n_features_in_ and every output bitwise equal; formed data never consults a callable preprocessor; a '
@@ -30,7 +30,8 @@ def case_strategy(draw, name):
               q_points=draw(st.lists(st.integers(0, n - 1), min_size=1, max_size=10)),
               q_tuples=draw(st.lists(st.lists(st.integers(0, n - 1), min_size=4, max_size=4), min_size=2, max_size=8)),
               exc=draw(st.sampled_from(['IndexError', 'KeyError', 'RuntimeError', 'ValueError', 'ZeroDivisionError'])),
-              order=draw(st.sampled_from(['drawn', 'sorted', 'sorted', 'reversed'])))
+              order=draw(st.sampled_from(['drawn', 'sorted', 'sorted', 'reversed'])),
+              layout=draw(st.sampled_from(['c', 'c', 'fortran', 'transposed-view', 'strided'])))
 
 
 class Counting:
@@ -43,11 +44,25 @@ class Counting:
     return self.P[idx]
 
 
+LAYOUT = {'v': 'c'}
+
+
 def cast(idx, dtype):
   idx = np.asarray(idx)
   if dtype == 'pyint':
     return idx.tolist()
-  return idx.astype(dtype)
+  out = idx.astype(dtype)
+  lay = LAYOUT['v']
+  if out.ndim == 2 and lay == 'fortran':
+    return np.asfortranarray(out)
+  if out.ndim == 2 and lay == 'transposed-view':
+    return np.ascontiguousarray(out.T).T
+  if lay == 'strided':
+    big = np.zeros(tuple(2 * n for n in out.shape), dtype=out.dtype)
+    sl = tuple(slice(None, None, 2) for _ in out.shape)
+    big[sl] = out
+    return big[sl]
+  return out
 
 
 def same_lfda(a, b):
@@ -73,6 +88,7 @@ def check_c05(case, stats):
   m = case['model']
   name = m['est']
   kind = E.KIND[name]
+  LAYOUT['v'] = case.get('layout', 'c')
   data = gen.Data(m['desc'])
   n, d = data.n, data.d
   rs = np.random.RandomState(case['pool_seed'])
@@ -206,7 +222,7 @@ def check_c05(case, stats):
   flat = np.asarray(fit_idx).ravel()
   unsorted_or_repeat = bool((np.diff(flat) < 0).any() or len(set(flat.tolist())) < flat.size)
   two_diff = np.asarray(fit_idx).ndim == 1 or bool((np.asarray(fit_idx)[:, 0] != np.asarray(fit_idx)[:, 1]).any())
-  stats.case(case, unsorted_or_repeat and two_diff, [name, case['kind'], 'dtype:' + dt, 'order:' + case.get('order', 'drawn')])
+  stats.case(case, unsorted_or_repeat and two_diff, [name, case['kind'], 'dtype:' + dt, 'order:' + case.get('order', 'drawn'), 'layout:' + case.get('layout', 'c')])
 
 
 CHECKS = {'check_c05': check_c05}
